@@ -62,6 +62,13 @@ def stepLine (line : String) : String :=
   | ["ELECTION", now, node] =>
     let r := (parseNode node).election (natOr now)
     s!"{showNode r.1} | {showEffects r.2}"
+  | ["LEADAGAIN", now, node] =>
+    let n := parseNode node
+    if n.role = .shutdown then s!"{showNode n} | {showEffects []}" else
+    let r0 := n.becomeFollower (natOr now) 2 (n.term + 1)
+    let r1 := r0.1.becomeCandidate
+    let r2 := r1.1.becomeLeader (natOr now)
+    s!"{showNode r2.1} | {showEffects (r0.2 ++ r1.2 ++ r2.2)}"
   | ["HEARTBEAT", now, node] =>
     let r := (parseNode node).heartbeat (natOr now)
     s!"{showNode r.1} | {showEffects r.2}"
